@@ -12,7 +12,8 @@ LEVEL = 'proof'
 TRUSTED = ['PARTIAL: proved = Tracker finalises every guard constant with the maximum static frame size reached later in its block (all operation sequences), '
            'index check exact for all values, array_size/max_length arithmetic, write_int footprint on the regenerated stdlib (incl. the refutation that it stays inside caller-pushed slots), '
            'machine faults are distinct from halting and vm_sound reports them; not proved: the simulation tying every emitted access to a slot of the abstract frame',
-           'the stack-boundary sweep compares every stack size from generous down to below the minimum with the generous run']
+           'the stack-boundary sweep compares every stack size from generous down to below the minimum with the generous run',
+           'coq/Sphinx/Monitor.v defines entitlement (R1-R5) for hidc-emitted code; the VM evaluates it on every executed state incl. speculative ones (OStop = un-entitled access)']
 ASSUMPTIONS = ['programs do not read uninitialised elements; stack overflow inside a try body may legitimately change which handler runs (README), so boundary sweeps use programs without time travel']
 
 SIZES = [300, 150, 100, 80, 70, 60, 55, 50, 46, 43, 40, 38, 36, 34, 32, 30, 29, 28, 27, 26, 25, 24, 23, 22, 21, 20, 19, 18, 17, 16, 15, 14, 13, 12, 11, 10, 9, 8, 7, 6, 5, 4, 3, 2, 1]
@@ -46,8 +47,10 @@ def run(ctx):
         units.append((src, [Cfg(c.args, c.w, s, False) for s in SIZES]))
     import C05
     dyn = [u for u in C05.directed_units(rng, ws[:2], 0) if ' a[n];' in u[0] or ' a[j];' in u[0]]
-    sweeps.diff_sweep(ctx, 'dynamic array lengths over the boundary grid (negative, zero, huge) and indices', dyn, extra=halts_extra(ctx))
-    results = diffrun.run_units(units, want_ref=False)
+    sweeps.diff_sweep(ctx, 'dynamic array lengths over the boundary grid (negative, zero, huge) and indices', dyn, extra=halts_extra(ctx), monitor=True)
+    mon_units = program_units(rng, 60 if q else 600, ['arrays', 'strings', 'calls', 'globals', 'overloads', 'tt', 'faults'], ws, cfgs_per=3, seed_base=ctx.seed + 401)
+    sweeps.diff_sweep(ctx, 'entitlement monitor on generated programs (all features)', mon_units, extra=halts_extra(ctx), monitor=True)
+    results = diffrun.run_units(units, want_ref=False, watch_labels='monitor')
     h = halts_extra(ctx)
     total = 0
     distinct = set()
